@@ -73,6 +73,21 @@ Proof.
     apply String.eqb_eq in E2. subst k'. apply str_in_In in Hk. congruence.
 Qed.
 
+Lemma lookup_set_key_same k v n : lookup k (set_key k v n) = Some v.
+Proof.
+  induction n as [|[k' w] r IH]; simpl.
+  - rewrite String.eqb_refl. reflexivity.
+  - destruct (String.eqb k' k) eqn:E; simpl; rewrite E; [reflexivity | exact IH].
+Qed.
+
+Lemma lookup_app_absent k v (n : nsp) : ~ In k (keys n) -> lookup k (n ++ [(k, v)])%list = Some v.
+Proof.
+  unfold keys. induction n as [|[k' w] r IH]; simpl; intros H.
+  - rewrite String.eqb_refl. reflexivity.
+  - destruct (String.eqb k' k) eqn:E; [apply String.eqb_eq in E; exfalso; apply H; left; exact E|].
+    apply IH. intros Hr. apply H. right. exact Hr.
+Qed.
+
 Lemma lookup_keys k n : lookup k n <> None <-> In k (keys n).
 Proof.
   unfold keys. induction n as [|[k' v] r IH]; simpl.
@@ -395,6 +410,26 @@ Section General.
     - injection E as <-. rewrite keys_app. apply in_or_app. right. left. reflexivity.
   Qed.
 
+  (* the attribute stored at a destination is the dataclass instance *)
+  Lemma inst_all_value forest dfl n1 l m m' :
+    NoDup (map snd l) -> inst_all' forest dfl n1 l m = Ok m' ->
+    forall w d, In (w, d) l -> w_suppress w && sup_none && negb (sup_nonempty wskips pskips forest d n1) = false ->
+    lookup d m' = Some NInst.
+  Proof.
+    revert m. induction l as [|[w0 d0] r IH]; intros m Hnd H w d Hin Hs; simpl in H; [destruct Hin|].
+    inversion Hnd as [|? ? Hnot Hnd']; subst.
+    destruct (inst_one' forest dfl n1 w0 m d0) as [m1|e] eqn:E; [|discriminate].
+    destruct Hin as [Heq|Hin]; [|exact (IH _ Hnd' H w d Hin Hs)].
+    injection Heq as -> ->.
+    assert (Hr : restrict [d] m' = restrict [d] m1).
+    { eapply inst_all_restrict; [|exact H]. intros [w' d'] Hin' [Hc|[]]. simpl in Hc. subst d'.
+      apply Hnot. apply in_map_iff. exists (w', d). split; [reflexivity | exact Hin']. }
+    rewrite <- (lookup_restrict d [d] m' (or_introl eq_refl)), Hr, (lookup_restrict d [d] m1 (or_introl eq_refl)).
+    unfold inst_one in E. rewrite Hs in E. destruct (mem d m) eqn:Em; simpl in E.
+    - destruct (coll_dfl_ok && str_in (hd "" (w_dests w)) dfl); [|discriminate]. injection E as <-. apply lookup_set_key_same.
+    - injection E as <-. apply lookup_app_absent. apply mem_false. exact Em.
+  Qed.
+
   (* the collision rule, one destination *)
   Definition dest_free (dfl : list string) (K : list string) (wd : wrapper * string) : bool :=
     negb (str_in (snd wd) K) || (coll_dfl_ok && str_in (hd "" (w_dests (fst wd))) dfl).
@@ -494,6 +529,15 @@ Section General.
       apply fold_fill_absent with (w := w); [apply registered_pairs; exact Hreg|].
       exact (registered_static_absent forest n n1 w f Hok E1 Hreg).
     - rewrite top_dests_pairs in Hk1. exact (Hdisj d Hd Hk1).
+  Qed.
+
+  Theorem post_value forest dfl n n' :
+    post' forest dfl n = Ok n' -> NoDup (top_dests forest) ->
+    forall w d, In (w, d) (top_pairs forest) -> w_suppress w = false -> lookup d n' = Some NInst.
+  Proof.
+    intros H Hnd w d Hin Hs. unfold post in H. destruct (remove_subgroups' forest n) as [n1|e] eqn:E1; [|discriminate].
+    unfold instantiate in H. eapply inst_all_value; [rewrite top_dests_pairs; exact Hnd | exact H | exact Hin|].
+    rewrite Hs. reflexivity.
   Qed.
 
   Theorem post_present forest dfl n n' :
@@ -877,4 +921,12 @@ Proof.
       apply Psg. apply eqb_prop in Hsg. fold sg_key_gen in *.
       unfold sg_key_gen, sg_key in *. destruct subgroups_removed_first_gen; [|discriminate].
       destruct (subgroup_dests wrapper_skips_gen subgroup_select_gen forest); [discriminate | left; reflexivity].
+  - apply forallb_forall. intros k Hk. apply filter_In in Hk as [Hkt Hks]. apply negb_true_iff, str_in_false in Hks.
+    destruct (top_pair_of _ _ Hkt) as [w Hw].
+    assert (Hsup : w_suppress w = false).
+    { destruct (w_suppress w) eqn:Es; [|reflexivity]. exfalso. apply Hks. exact (sup_top_of _ _ _ Hw Es). }
+    assert (Hndt : NoDup (top_dests forest)).
+    { pose proof Hclean as Hc2. unfold post_clean_gen, post_clean in Hc2.
+      repeat (apply andb_true_iff in Hc2 as [Hc2 ?]). apply str_nodupb_NoDup. assumption. }
+    rewrite (post_value _ _ _ _ _ _ _ _ _ _ _ E Hndt w k Hw Hsup). reflexivity.
 Qed.
